@@ -40,11 +40,59 @@ def mk_order(strategy, sel):
     o.client = None
     st = rnd.choice(STATUSES)
     o.status = st
+    if st == OrderStatus.CANCELLING:
+        o.update_data["size_reduction"] = rnd.choice([None, 0.5, 1.0])
+    if st == OrderStatus.REPLACING:
+        o.update_data["new_price"] = rnd.choice(PRICES)
     o.complete = st in (OrderStatus.EXECUTION_COMPLETE, OrderStatus.EXPIRED, OrderStatus.VIOLATION)
     if kind in ("L", "LINE"):
         m = rnd.choice([0.0, ot.size, round(ot.size / 2, 2)])
         o.responses.current_order = mock.Mock(size_matched=m, size_remaining=round(ot.size - m, 2) if not o.complete else rnd.choice([0.0, round(ot.size - m, 2)]), average_price_matched=rnd.choice(PRICES) if m else 0.0)
     return o
+
+
+def spec_selection(orders, exclusion, new_order):
+    """the property statement, brute force: worst profit over every combination of which open orders fill
+    (each fully or not at all, at its limit price) for the selection winning and for it losing"""
+    from flumine.order.ordertype import OrderTypes
+    book = [o for o in orders if o is not exclusion]
+    if new_order is not None and new_order is not exclusion:
+        book.append(new_order)
+    book = [o for o in book if o.status not in (OrderStatus.PENDING, OrderStatus.VIOLATION, OrderStatus.EXPIRED)]
+    fixed_w = fixed_l = 0.0
+    opens = []
+    for o in book:
+        t = o.order_type
+        if t.ORDER_TYPE == OrderTypes.LIMIT:
+            line = t.price_ladder_definition == "LINE_RANGE"
+            m = o.size_matched
+            a = 2.0 if line else o.average_price_matched
+            if m:
+                if o.side == "BACK":
+                    fixed_w += (a - 1) * m; fixed_l += -m
+                else:
+                    fixed_w += -(a - 1) * m; fixed_l += m
+            r = o.size_remaining
+            p = 2.0 if line else t.price
+            if not o.complete and r and p:
+                opens.append((o.side, p, r))
+        else:  # starting-price orders: the liability is lost on the losing outcome (I-3)
+            if o.side == "BACK":
+                fixed_l += -t.liability
+            else:
+                fixed_w += -t.liability
+    best_w = best_l = None
+    for mask in range(1 << len(opens)):
+        w, l = fixed_w, fixed_l
+        for i, (side, p, r) in enumerate(opens):
+            if mask >> i & 1:
+                if side == "BACK":
+                    w += (p - 1) * r; l += -r
+                else:
+                    w += -(p - 1) * r; l += r
+        best_w = w if best_w is None else min(best_w, w)
+        best_l = l if best_l is None else min(best_l, l)
+    return best_w, best_l
 
 
 failures = []
@@ -77,9 +125,20 @@ for it in range(a.n):
     # brute force over winner sets
     lookups = sorted({o.lookup for o in mine} | ({new_order.lookup} if new_order is not None else set()))
     per = {}
+    bad = False
     for lk in lookups:
-        ex = b.get_exposures(strategy, lk, exclusion=exclusion, new_order=new_order if (new_order is not None and new_order.lookup == lk) else None)
+        no = new_order if (new_order is not None and new_order.lookup == lk) else None
+        ex = b.get_exposures(strategy, lk, exclusion=exclusion, new_order=no)
         per[lk] = (ex["worst_possible_profit_on_win"], ex["worst_possible_profit_on_lose"])
+        sw, sl = spec_selection([o for o in mine if o.lookup == lk], exclusion, no)
+        if abs(sw - per[lk][0]) > 0.0101 or abs(sl - per[lk][1]) > 0.0101:
+            failures.append(dict(kind="get_exposures != brute-force worst case over fill subsets", lookup=str(lk), reported=per[lk], expected=(sw, sl),
+                                 orders=[dict(side=o.side, type=o.order_type.ORDER_TYPE.name, status=o.status.name, matched=o.size_matched, remaining=o.size_remaining,
+                                              price=getattr(o.order_type, "price", None), update_data=dict(o.update_data)) for o in mine if o.lookup == lk]))
+            bad = True
+            break
+    if bad:
+        break
     runners = list(lookups) + [("x", i) for i in range(active - len(lookups))]
     best = None
     for winners in itertools.combinations(range(len(runners)), min(nwin, len(runners))):
